@@ -23,27 +23,33 @@ func sortFilter(array []any, key any) []any {
 func sortNaturalFilter(array []any, key any) any {
 	result := make([]any, len(array))
 	copy(result, array)
-	switch {
-	case reflect.ValueOf(array).Len() == 0:
-	case key != nil:
+	if key != nil {
+		// As in sort, the key names an entry of string-keyed maps. An element that is not
+		// such a map, lacks the key, or holds something other than a string there, sorts first.
+		name := fmt.Sprint(key)
 		sort.Sort(keySortable{result, func(m any) string {
 			rv := reflect.ValueOf(m)
-			if rv.Kind() != reflect.Map {
+			if rv.Kind() != reflect.Map || rv.Type().Key().Kind() != reflect.String {
 				return ""
 			}
-			ev := rv.MapIndex(reflect.ValueOf(key))
-			if ev.CanInterface() {
+			ev := rv.MapIndex(reflect.ValueOf(name).Convert(rv.Type().Key()))
+			if ev.IsValid() && ev.CanInterface() {
 				if s, ok := ev.Interface().(string); ok {
 					return strings.ToLower(s)
 				}
 			}
 			return ""
 		}})
-	case reflect.TypeOf(array[0]).Kind() == reflect.String:
-		sort.Sort(keySortable{result, func(s any) string {
-			return strings.ToUpper(s.(string))
-		}})
+		return result
 	}
+	// Elements are ordered by their text, ignoring case: nil sorts first (as in sort),
+	// and an element that is not a string is ordered by its printed form.
+	sort.Sort(keySortable{result, func(v any) string {
+		if v == nil {
+			return ""
+		}
+		return strings.ToUpper(fmt.Sprint(v))
+	}})
 	return result
 }
 
